@@ -17,6 +17,8 @@ func init() {
 func runC02(c *Ctx) {
 	borrow(c, "O15", "C17", "O1", "", "a reservation pod that is created, inspected and deleted without its group's mutex can be deleted by a concurrent node sync between its creation and the labelling of its first sharer: the sharer stays on a device that the device plugin hands out again")
 	runC02PortionRounding(c)
+	borrow(c, "O16", "C17", "O2", "every handed-out mutex is counted", "a waiter that is not counted loses the group mutex when the holder releases: a concurrent sync deletes the reservation pod of a sharer that is between reservation and labelling, and the device is handed out again")
+	borrow(c, "O17", "C01", "O12", "every pod in a resource-occupying status is added to the node", "a terminating sharer that is not put on its node leaves its group looking emptier (or its device looking idle): the share is handed out again while the pod still runs")
 	borrow(c, "O10", "C13", "O9", "PodInfo.GPUGroups restored before", "an undone eviction re-adds the sharer to its node under the group ids it carries at that moment: with the ids of the simulated placement its share leaves the real device, which then looks free")
 	borrow(c, "O11", "C12", "O1", "GPUGroups taken from the BindRequest", "a nominated multi-device sharer is charged to the groups its BindRequest selected; the labels the binder has written so far are a subset")
 	borrow(c, "O12", "C14", "O10", "is decided by the state of the GPU group", "a shared device is charged as one whole GPU exactly while it has sharers: the ±1 on Idle/Releasing must be tied to the first / last sharer of the group")
